@@ -657,12 +657,18 @@ impl WalkBuilder {
     /// returned. Note that the error may indicate *partial* failure. For
     /// example, if an ignore file contains an invalid glob, all other globs
     /// are still applied.
+    ///
+    /// The file is read when this method is called, with the case
+    /// sensitivity that `ignore_case_insensitive` has configured by then.
     pub fn add_ignore<P: AsRef<Path>>(&mut self, path: P) -> Option<Error> {
         // The globs are matched relative to the current directory. Make that
         // explicit, so that they also apply to absolute paths below it (a
         // relative path is matched as is either way).
         let cwd = std::env::current_dir().unwrap_or_default();
         let mut builder = GitignoreBuilder::new(cwd);
+        builder
+            .case_insensitive(self.ig_builder.is_ignore_case_insensitive())
+            .unwrap();
         let mut errs = PartialErrorBuilder::default();
         errs.maybe_push(builder.add(path));
         match builder.build() {
